@@ -80,7 +80,7 @@ pub fn replay(property: &str, engine: &str, case: &Value) -> Result<(), Failure>
 fn history(mask: u32, stream: u64, quick: bool, seed: u64, rule: &str) -> Outcome {
     let mut o = Outcome::new(rule);
     o.assumptions.push("tie tolerance 10 uV at every decision boundary (the quantizer works on an integer microvolt grid)".into());
-    let cases = if quick { 30_000 } else { 1_500_000 };
+    let cases = if quick { 250_000 } else { 1_500_000 };
     let part = pt_run("quant_history", quant_case, cases, seed, stream, 6000, |c, st| run_case(c, mask, st).map(|i| i.nontrivial));
     o.absorb(part);
     o
@@ -114,10 +114,10 @@ fn scales_sweep(o: &mut Outcome, c19: bool, n_random: usize, seed: u64) {
 
 pub fn c08(quick: bool, seed: u64) -> Outcome {
     let mut o = Outcome::new(
-        "complete generator over all 4095 non-empty scales x per-scale input list (every half-semitone grid point k/24, k=0..240, with offsets {0,+-1e-6,+-2e-5}: all decision boundaries between any two notes; out-of-range and non-finite values; N seed-derived uniform values, N = 200 quick / 20000 thorough); a fresh quantizer per conversion; acceptance predicate (allowed, in the one-semitone-below window or nearest, ties within 10 uV) and monotonicity along the sorted inputs. Thorough adds the complete 10,000,001-value microvolt sweep for the chromatic scale, the 12 singletons, {E,B} and 32 seed-chosen scales. non-trivial = conversion of a non-chromatic scale in octave >= 1 whose note is not in the input's own octave, or an input within 1/1000 semitone of a half-semitone grid point (counted; distinct by construction: each (scale,input) pair occurs once)",
+        "complete generator over all 4095 non-empty scales x per-scale input list (every half-semitone grid point k/24, k=0..240, with offsets {0,+-1e-6,+-2e-5}: all decision boundaries between any two notes; out-of-range and non-finite values; N seed-derived uniform values, N = 2000 quick / 20000 thorough); a fresh quantizer per conversion; acceptance predicate (allowed, in the one-semitone-below window or nearest, ties within 10 uV) and monotonicity along the sorted inputs. Thorough adds the complete 10,000,001-value microvolt sweep for the chromatic scale, the 12 singletons, {E,B} and 32 seed-chosen scales. non-trivial = conversion of a non-chromatic scale in octave >= 1 whose note is not in the input's own octave, or an input within 1/1000 semitone of a half-semitone grid point (counted; distinct by construction: each (scale,input) pair occurs once)",
     );
     o.assumptions.push("tie tolerance 10 uV at every decision boundary (the quantizer works on an integer microvolt grid)".into());
-    scales_sweep(&mut o, false, if quick { 200 } else { 20_000 }, seed);
+    scales_sweep(&mut o, false, if quick { 2_000 } else { 20_000 }, seed);
     if o.stats.get("scales") == 4095 {
         o.exhaustive = !quick;
         if !quick {
